@@ -125,7 +125,7 @@ class Executor:
 
   def ev_Name(s,e,st):
     n=e.id
-    if n in st.env: yield st,st.env[n]; return
+    if n in st.env: yield st,(s.freeze(st.env[n],st) if s.spec else st.env[n]); return
     if s.spec and s.spec_env is not None and n in s.spec_env: yield st,s.spec_env[n]; return
     g=s.lookup_global(n)
     if g is None:
@@ -212,6 +212,10 @@ class Executor:
     if z3.is_false(c): return b
     if isinstance(a,B) and isinstance(b,B): return B(z3.If(c,a.t,b.t))
     if is_intlike(a) and is_intlike(b): return I(z3.If(c,as_int(a),as_int(b)))
+    if type(a).__name__=='SetV' and type(b).__name__=='SetV':
+      from .symcoll import SetV
+      return SetV(z3.If(c,a.arr,b.arr),a.elem or b.elem)
+    if isinstance(a,Opq) and isinstance(b,Opq): return Opq(z3.If(c,a.t,b.t),a.kind)
     raise ToolError(f"ite over non-scalar values {a!r} {b!r}")
 
   def ev_BoolOp(s,e,st):
@@ -297,6 +301,11 @@ class Executor:
       else: raise Unsupported(f"int binop {op.__name__}")
       return
     name=s.BINOP_METHODS.get(op)
+    if _setlike(a,st) and _setlike(b,st) and op in (ast.BitOr,ast.Sub,ast.BitAnd):
+      from . import symcoll
+      x,et=symcoll.setval(a,st); y,et2=symcoll.setval(b,st)
+      f={ast.BitOr:z3.SetUnion,ast.Sub:z3.SetDifference,ast.BitAnd:z3.SetIntersect}[op]
+      yield st,symcoll.SetV(f(x,y),et or et2); return
     if isinstance(a,S) and isinstance(b,S) and op is ast.Add:
       yield st,S(a.py+b.py if a.py is not None and b.py is not None else None); return
     if isinstance(a,S) and op is ast.Mod:        # "..." % args  -> opaque string
@@ -342,6 +351,14 @@ class Executor:
       x,y=as_int(a),as_int(b)
       r={ast.Eq:x==y,ast.NotEq:x!=y,ast.Lt:x<y,ast.LtE:x<=y,ast.Gt:x>y,ast.GtE:x>=y}[op]
       yield st,B(r); return
+    if op in (ast.Eq,ast.NotEq) and _setlike(a,st) and _setlike(b,st):
+      from . import symcoll
+      t=symcoll.setval(a,st)[0]==symcoll.setval(b,st)[0]
+      yield st,B(t if op is ast.Eq else z3.Not(t)); return
+    if op in (ast.Eq,ast.NotEq) and type(a).__name__=='DictV' and type(b).__name__=='DictV':
+      k=z3.Const('k!deq',a.dom.domain())
+      t=z3.And(a.dom==b.dom, z3.ForAll([k],z3.Implies(z3.Select(a.dom,k),z3.Select(a.val,k)==z3.Select(b.val,k))))
+      yield st,B(t if op is ast.Eq else z3.Not(t)); return
     m,rm=s.CMP_METHODS[op]
     if isinstance(a,Ref) and s.reg.find_method(a.cls,m) is not None:
       yield from s.call_method(a,m,[b],st); return
@@ -392,12 +409,27 @@ class Executor:
     h=s.reg.coll_handler(container,st)
     if h is not None:
       yield from h.contains(s,container,x,st,negate); return
+    if type(container).__name__ in('SetV','DictSlot','DictV'):
+      from . import symcoll
+      arr=container.dom if type(container).__name__=='DictV' else symcoll.setval(container,st)[0]
+      t=z3.Select(arr,symcoll.to_obj(x,st)); yield st,B(z3.Not(t) if negate else t); return
     raise Unsupported(f"membership in {container!r}")
 
   def ev_Attribute(s,e,st):
     for st1,o in s.ev(e.value,st):
       if isinstance(o,Exc): yield st1,o; continue
-      yield from s.getattr(o,e.attr,st1)
+      for st2,v in s.getattr(o,e.attr,st1):
+        yield st2,(s.freeze(v,st2) if s.spec else v)
+
+  def freeze(s,v,st):
+    """contract expressions see collections as immutable values of the heap they are evaluated in."""
+    if isinstance(v,Ref) and v.cls=='set' and (v.id,'arr') in st.heap:
+      from .symcoll import SetV
+      return SetV(st.heap[(v.id,'arr')],st.heap[(v.id,'elem')])
+    if isinstance(v,Ref) and v.cls=='dict' and (v.id,'dom') in st.heap:
+      from .symcoll import DictV
+      return DictV(st.heap[(v.id,'dom')],st.heap[(v.id,'val')],st.heap[(v.id,'key')],st.heap[(v.id,'vt')])
+    return v
 
   def getattr(s,o,attr,st):
     if isinstance(o,SuperV):
@@ -437,6 +469,10 @@ class Executor:
       else: yield from s.getitem(vals[0],vals[1],st1)
 
   def getitem(s,o,idx,st):
+    if type(o).__name__=='DictV':
+      from . import symcoll
+      k=symcoll.to_obj(idx,st); v=z3.Select(o.val,k)
+      yield st,(symcoll.SetV(v,o.vt.elem) if isinstance(o.vt,symcoll.SetOf) else symcoll.from_obj(v,o.vt,st)); return
     if isinstance(o,Table):
       if isinstance(idx,Ref):   # Bits index -> __index__
         for st1,r in s.call_method(idx,'__index__',[],st):
@@ -483,6 +519,14 @@ class Executor:
     # spec-only forms that need unevaluated arguments
     if s.spec and isinstance(e.func,ast.Name) and e.func.id in SPEC_FORMS:
       yield from SPEC_FORMS[e.func.id](s,e,st); return
+    # accessor methods of framework objects declared in the contract view: top.get_all_update_ff() is the field 'get_all_update_ff()'
+    if isinstance(e.func,ast.Attribute) and not e.args and not e.keywords:
+      hit=False
+      for st1,o in s.ev(e.func.value,st):
+        if isinstance(o,Ref) and (o.id,e.func.attr+'()') in st1.heap:
+          hit=True; v=st1.heap[(o.id,e.func.attr+'()')]; yield st1,(s.freeze(v,st1) if s.spec else v)
+        else: break
+      if hit: return
     for st1,f in s.ev(e.func,st):
       if isinstance(f,Exc): yield st1,f; continue
       for st2,vals in s.evs(list(e.args)+[k.value for k in e.keywords],st1):
@@ -524,7 +568,7 @@ class Executor:
     argv=list(args)
     if ctor is not None:
       selfv=st.alloc(ctor);
-    if selfv is not None and params and params[0]=='self': argv=[selfv]+argv
+    if selfv is not None and params and '.' in c.qual: argv=[selfv]+argv
     env=c.bind(params,argv,kw,s)
     if isinstance(env,Exc): yield st,env; return
     tags={p:type_tag(v,st) for p,v in env.items()}
@@ -547,9 +591,7 @@ class Executor:
       pre_heap=dict(st1.heap)
       # havoc the frame
       for loc in (cs.modifies if cs.modifies is not None else c.modifies):
-        obj,field=loc.split('.')
-        o=env[obj]
-        st1.heap[(o.id,field)]=I(st1.fresh_int(f"{obj}.{field}'"))
+        havoc_keys(resolve_locs(loc,env,st1.heap),st1,loc)
       res=None
       rt=cs.returns if cs.returns is not None else c.returns
       if ctor is not None: res=selfv; rt='self'
@@ -749,6 +791,10 @@ class Executor:
       if isinstance(vals,Exc): yield st1,('raise',vals); continue
       a,b=vals
       im=s.INPLACE.get(type(n.op))
+      if type(a).__name__=='DictSlot' and im:
+        from .symcoll import SlotOps
+        st2,r=SlotOps.apply(s,a,im,[b],st1)
+        yield from s.assign(n.target,r,st2); continue
       if isinstance(a,Ref):
         h=s.reg.coll_handler(a,st1)
         if h is not None and im and h.has_method(im):
@@ -930,6 +976,22 @@ class Executor:
     finally: s.spec=old
     return as_int(rs[0][1])
 
+  def st_Delete(s,n,st):
+    def go(ts,st):
+      if not ts: yield st,None; return
+      t=ts[0]
+      if isinstance(t,ast.Name):
+        st2=st.fork(); st2.env.pop(t.id,None); yield from go(ts[1:],st2); return
+      if not isinstance(t,ast.Subscript): raise Unsupported("del of attribute")
+      for st1,vals in s.evs([t.value,t.slice],st):
+        if isinstance(vals,Exc): yield st1,('raise',vals); continue
+        h=s.reg.coll_handler(vals[0],st1) if isinstance(vals[0],Ref) else None
+        if h is None or not hasattr(h,'delitem'): raise Unsupported(f"del on {vals[0]!r}")
+        for st2,ctl in h.delitem(s,vals[0],vals[1],st1):
+          if ctl is not None: yield st2,ctl
+          else: yield from go(ts[1:],st2)
+    yield from go(n.targets,st)
+
   def st_FunctionDef(s,n,st):
     st=st.fork(); st.env[n.name]=Fn('local:'+n.name); yield st,None
   def st_ClassDef(s,n,st):
@@ -940,6 +1002,27 @@ def _inside_old(root,node):
     if isinstance(n,ast.Call) and isinstance(n.func,ast.Name) and n.func.id=='old':
       if any(x is node for x in ast.walk(n)): return True
   return False
+
+def resolve_locs(loc,env,heap):
+  """heap keys named by a frame location: 'self._uint' ; 's._dsl.all_upblks' (a whole set / dict object)."""
+  parts=loc.split('.'); cur=env[parts[0]]
+  for p in parts[1:-1]: cur=heap[(cur.id,p)]
+  last=parts[-1]
+  tgt=heap.get((cur.id,last))
+  if isinstance(tgt,Ref) and tgt.cls=='set' and (tgt.id,'arr') in heap: return {(tgt.id,'arr')}
+  if isinstance(tgt,Ref) and tgt.cls=='dict' and (tgt.id,'dom') in heap: return {(tgt.id,'dom'),(tgt.id,'val')}
+  return {(cur.id,last)}
+
+def havoc_keys(keys,st,tag):
+  for (oid,f) in keys:
+    old=st.heap.get((oid,f))
+    if isinstance(old,z3.ExprRef): st.heap[(oid,f)]=z3.Const(f"{tag}.{f}!{st.nextid[0]}",old.sort()); st.nextid[0]+=1
+    else: st.heap[(oid,f)]=I(st.fresh_int(f"{tag}.{f}'"))
+
+def _setlike(v,st):
+  n=type(v).__name__
+  if n in('SetV','DictSlot'): return True
+  return isinstance(v,Ref) and v.cls=='set' and (v.id,'arr') in st.heap
 
 def _as_load(t):
   t2=ast.parse(ast.unparse(t),mode='eval').body
@@ -1229,6 +1312,8 @@ for _k in list(BUILTIN_FNS):
 def _form_old(s,e,st):
   # old(expr): evaluate in the entry heap with the entry values of the parameters
   st2=st.fork(); st2.heap=st.entry_heap; st2.env=dict(st.entry_env)
+  for k,v in st.env.items():
+    if k not in st2.env: st2.env[k]=v           # quantifier-bound and ghost names stay visible inside old(...)
   yield from ((st,v) for _,v in s.ev(e.args[0],st2))
 
 def _form_isset(s,e,st):
